@@ -15,6 +15,9 @@ func main() {
 		os.Exit(2)
 	}
 	id := os.Args[1]
+	if id == "C17-child" {
+		os.Exit(checks.FaultChild(os.Args[2]))
+	}
 	seed := int64(1)
 	if s := os.Getenv("VERIF_SEED"); s != "" {
 		if n, err := strconv.ParseInt(s, 10, 64); err == nil {
